@@ -174,3 +174,290 @@ class Pool1Contribute(Job):
 
 
 JOBS["C41"].append(Pool1Contribute())
+
+
+# ---------------------------------------------------------------------------------------------------------------
+# two-resource pool: contribute over a symbolic resource ledger (amount per bucket / vault, divisibility per resource)
+HI, LO = 9, 3            # the pool's two resources: the larger / smaller address (vault1 / vault2 after the blueprint's sort)
+V_HI, V_LO, B_HI, B_LO, T_HI, T_LO, MINTED = 20, 21, 31, 32, 41, 42, 50
+
+
+class Pool2Contribute(Job):
+    crate = "radix-engine"
+    query_timeout_s = 200
+    max_unroll = 40
+    fresh_capacity = 2
+    prune_timeout_ms = 400          # feasibility pruning over non-linear path conditions: an undecided branch is kept
+    case_keys = ("dhi", "dlo", "swap", "arm")
+    ARMS = ("hi_empty", "lo_empty", "normal")
+
+    def __init__(self, kind):
+        """kind: 'conservation' | 'fairness18' (both resources of divisibility 18) | 'fairness_lowdiv' (a resource of lower
+        divisibility: the rounding of the deposit is not reflected in the units minted -- a known finding)"""
+        self.kind = kind
+        self.fairness = kind != "conservation"
+        self.name = "c41m::two_resource_pool_contribute_" + kind
+        if kind == "conservation":
+            self.tiers = ("thorough",)
+        base = ("TwoResourcePoolBlueprint::contribute (v1_1) over a resource ledger (symbolic amount per bucket and vault; "
+                "take_advanced rounds down to the resource's divisibility), any contributions, reserves and unit supply <= "
+                "10^12 units, one run per arm with units in circulation (either reserve empty, or both non-empty; the "
+                "new-pool arm is outside), divisibilities %s: " % {
+                    "conservation": "(18,18), (0,18)", "fairness18": "(18,18), one-sided liquidity arms only",
+                    "fairness_lowdiv": "(0,18) (thorough also (18,0), (6,2))"}[kind])
+        if self.fairness:
+            self.what = base + ("the units minted never exceed the pro-rata share of what was actually DEPOSITED on either "
+                                "side (m/S <= deposit/reserve, one atto of slack for the 36->18 digit truncation)")
+            self.cover_labels = ["normal operation", "one-sided liquidity"]
+        else:
+            self.what = base + ("every contributed amount is either deposited into its vault or handed back as the change "
+                                "bucket (at most one side has change, the other bucket is dropped empty), deposits go to the "
+                                "matching vault, some units are minted on success, and with one-sided liquidity nothing is "
+                                "taken for the empty side")
+            self.cover_labels = ["normal operation with change", "one-sided liquidity"]
+
+    def cases(self, tier):
+        if self.kind == "fairness18":
+            divs = [(18, 18)]
+        elif self.kind == "fairness_lowdiv":
+            divs = [(0, 18)] + ([(18, 0), (6, 2)] if tier == "thorough" else [])
+        else:
+            divs = [(18, 18), (0, 18)]
+        swaps = (0, 1) if tier == "thorough" else (0,)
+        if self.kind == "fairness18":
+            arms = ("hi_empty", "lo_empty")     # (the normal arm at divisibility 18: the solver does not decide it -- outside)
+        elif self.kind == "fairness_lowdiv":
+            arms = self.ARMS if tier == "thorough" else ("normal",)
+        else:
+            arms = self.ARMS
+        return [{"dhi": a_, "dlo": b_, "swap": s_, "arm": arm} for (a_, b_) in divs for s_ in swaps for arm in arms]
+
+    def locate(self, prog):
+        cands = [f for f in prog.by_last.get("contribute", []) if f.kind == "fn" and "v1_1/two_resource_pool_blueprint.rs" in f.name
+                 and len(f.params) == 2]
+        if len(cands) != 1:
+            raise LookupError("two_resource_pool contribute: %d candidates" % len(cands))
+        return cands[0]
+
+    def inputs(self):
+        d = {k: z3.Int(k) for k in ("chi", "clo", "Rhi", "Rlo", "S")}
+        pre = []
+        for k in d:
+            pre += [d[k] >= 0, d[k] <= MAXA]
+        # amounts respect their resource's divisibility (buckets and vaults can only hold such amounts)
+        for k, dv in (("chi", self.case["dhi"]), ("Rhi", self.case["dhi"]), ("clo", self.case["dlo"]), ("Rlo", self.case["dlo"])):
+            step = 10 ** (18 - dv)
+            if step > 1:
+                pre.append(d[k] % step == 0)
+        # one run per arm of the blueprint's case analysis (units in circulation; the new-pool arm with its square roots is
+        # outside this job)
+        arm = self.case["arm"]
+        pre += [d["S"] > 0, (d["Rhi"] == 0) if arm == "hi_empty" else (d["Rhi"] > 0),
+                (d["Rlo"] == 0) if arm == "lo_empty" else (d["Rlo"] > 0)]
+        return d, pre
+
+    def _node_res(self, n):
+        return HI if n in (V_HI, B_HI, T_HI) else LO
+
+    @property
+    def const_overrides(self):
+        # `indexmap!{..}` expands to a capacity constant local to the closure (597 same-named constants in the dump)
+        return [(re.compile(r"contribute::\{closure#0\}::CAP$"), IntV(2, "usize"))]
+
+    @property
+    def env_overrides(self):
+        R = re.compile
+
+        def ok(ret_ty, v):
+            return EnumV(ret_ty, 0, {0: [v]})
+
+        def err(ret_ty):
+            return EnumV(ret_ty, 1, {1: [EnumV("RuntimeError", 0, {0: [UndefV()]})]})
+
+        def node_of(interp, path, v):
+            v = _models.deref(interp, path, v)
+            while v.kind == "struct" and v.ty != "NodeId":
+                v = v.fields[0]
+            return z3.simplify(v.fields[0].term).as_long()
+
+        def amt(path, n):
+            return path.frames["job"]["amt%d" % n].term
+
+        def set_amt(path, n, t):
+            path.frames["job"]["amt%d" % n] = IntV(t, "i256")
+
+        def m_res(interp, path, args, ret_ty, callee):
+            return ok(ret_ty, res_v(self._node_res(node_of(interp, path, args[0]))))
+
+        def m_amount(interp, path, args, ret_ty, callee):
+            return ok(ret_ty, dec_v(amt(path, node_of(interp, path, args[0]))))
+
+        def m_is_empty(interp, path, args, ret_ty, callee):
+            return ok(ret_ty, BoolV(amt(path, node_of(interp, path, args[0])) == 0))
+
+        def m_supply(interp, path, args, ret_ty, callee):
+            return ok(ret_ty, EnumV("Option<Decimal>", 1, {1: [dec_v(self._d["S"])]}))
+
+        def m_take_advanced(interp, path, args, ret_ty, callee):
+            n = node_of(interp, path, args[0])
+            q = unwrap_int(args[1])
+            step = 10 ** (18 - (self.case["dhi"] if self._node_res(n) == HI else self.case["dlo"]))
+            taken = q - (q % step) if step > 1 else q
+            fits = z3.And(taken >= 0, taken <= amt(path, n))
+            outs = []
+            for p, tag in interp.fork(path, [(fits, "ok"), (z3.Not(fits), "err")]):
+                if tag == "err":
+                    outs.append(_models.Outcome(p, "ret", err(ret_ty)))
+                    continue
+                new = T_HI if n == B_HI else T_LO
+                set_amt(p, n, amt(p, n) - taken)
+                set_amt(p, new, taken)
+                outs.append(_models.Outcome(p, "ret", ok(ret_ty, StructV("Bucket", [own_v(new)]))))
+            return outs
+
+        def m_put(interp, path, args, ret_ty, callee):
+            v, b = node_of(interp, path, args[0]), node_of(interp, path, args[1])
+            job = path.frames["job"]
+            job["put_ok"] = BoolV(z3.And(job["put_ok"].term, z3.BoolVal(self._node_res(v) == self._node_res(b))))
+            set_amt(path, v, amt(path, v) + amt(path, b))
+            set_amt(path, b, z3.IntVal(0))
+            return ok(ret_ty, UnitV())
+
+        def m_mint(interp, path, args, ret_ty, callee):
+            job = path.frames["job"]
+            job["mints"] = IntV(job["mints"].term + 1, "u32")
+            job["minted"] = IntV(unwrap_int(args[1]), "i256")
+            return ok(ret_ty, StructV("FungibleBucket", [StructV("Bucket", [own_v(MINTED)])]))
+
+        def m_drop_empty(interp, path, args, ret_ty, callee):
+            n = node_of(interp, path, args[0])
+            empty = amt(path, n) == 0
+            outs = []
+            for p, tag in interp.fork(path, [(empty, "ok"), (z3.Not(empty), "err")]):
+                if tag == "ok":
+                    p.frames["job"]["dropped%d" % n] = BoolV(True)
+                    outs.append(_models.Outcome(p, "ret", ok(ret_ty, UnitV())))
+                else:
+                    outs.append(_models.Outcome(p, "ret", err(ret_ty)))
+            return outs
+
+        def m_unit_ok(interp, path, args, ret_ty, callee):
+            return ok(ret_ty, UnitV())
+
+        def m_cmp(interp, path, args, ret_ty, callee):
+            a, b = _models.deref(interp, path, args[0]).fields[0].term, _models.deref(interp, path, args[1]).fields[0].term
+            op = callee.rsplit("::", 1)[1]
+            return BoolV({"eq": a == b, "ne": a != b, "gt": a > b, "lt": a < b, "ge": a >= b, "le": a <= b}[op])
+        mine = [(R(r"^<Bucket as NativeBucket>::resource_address::<"), m_res),
+                (R(r"^<(Bucket as NativeBucket|Vault as NativeVault)>::amount::<"), m_amount),
+                (R(r"^<Bucket as NativeBucket>::is_empty::<"), m_is_empty),
+                (R(r"^<Bucket as NativeBucket>::take_advanced::<"), m_take_advanced),
+                (R(r"^<Bucket as NativeBucket>::drop_empty::<"), m_drop_empty),
+                (R(r"^<Vault as NativeVault>::put::<"), m_put),
+                (R(r"ResourceManager::total_supply::<"), m_supply), (R(r"ResourceManager::mint_fungible::<"), m_mint),
+                (R(r"Runtime::emit_event::<"), m_unit_ok),
+                (R(r"^<ResourceAddress as (PartialEq|PartialOrd)>::(eq|ne|gt|lt|ge|le)$"), m_cmp),
+                (R(r"^<FungibleBucket as Into<Bucket>>::into$"), lambda i, p, a, r, c: a[0].fields[0]),
+                (R(r"VersionedTwoResourcePoolState as Versioned>::fully_update_and_into_latest_version$"),
+                 lambda i, p, a, r, c: a[0]),
+                (R(r"^<(ResourceAddress|Bucket|Vault) as Clone>::clone$"), _models.m_clone)]
+        return mine + field_store_overrides(self, {"VersionedTwoResourcePoolState": "state"})
+
+    def setup_path(self, path, inp):
+        d = self._d = {k: lit(v) for k, v in inp.items()}
+        vaults = StructV("[(ResourceAddress, Vault); 2]", [
+            StructV("(ResourceAddress, Vault)", [res_v(LO), StructV("Vault", [own_v(V_LO)])]),
+            StructV("(ResourceAddress, Vault)", [res_v(HI), StructV("Vault", [own_v(V_HI)])])])
+        state = StructV("TwoResourcePoolSubstate", [vaults, StructV("ResourceManager", [res_v(5)])])
+        job = {"api": StructV("Api", []), "state": state, "mints": IntV(0, "u32"), "minted": IntV(0, "i256"), "put_ok": BoolV(True),
+               "amt%d" % V_HI: IntV(d["Rhi"], "i256"), "amt%d" % V_LO: IntV(d["Rlo"], "i256"),
+               "amt%d" % B_HI: IntV(d["chi"], "i256"), "amt%d" % B_LO: IntV(d["clo"], "i256"),
+               "amt%d" % T_HI: IntV(0, "i256"), "amt%d" % T_LO: IntV(0, "i256")}
+        for n in (B_HI, B_LO, T_HI, T_LO):
+            job["dropped%d" % n] = BoolV(False)
+        path.frames["job"] = job
+
+    def args(self, inp):
+        b_hi, b_lo = StructV("Bucket", [own_v(B_HI)]), StructV("Bucket", [own_v(B_LO)])
+        pair = [b_lo, b_hi] if self.case["swap"] else [b_hi, b_lo]
+        return [StructV("(Bucket, Bucket)", pair), RefV("&mut Y", "job", "api", ())]
+
+    def extract_outcome(self, o):
+        d = self._d
+        job = o.path.frames["job"]
+        ok = o.value.discr == 0
+        change = z3.IntVal(0)
+        if o.value.variants.get(0):
+            tup = o.value.variants[0][0]
+            opt = tup.fields[1]
+            if opt.kind == "enum" and opt.variants.get(1):
+                b = opt.variants[1][0]
+                n = z3.simplify(b.fields[0].fields[0].fields[0].term).as_long()
+                change = z3.If(opt.discr == 1, n, 0)
+        g = lambda n: job["amt%d" % n].term
+        res = {"ok": ok, "minted": z3.If(ok, job["minted"].term, 0),
+               "dep_hi": z3.If(ok, g(V_HI) - d["Rhi"], 0), "dep_lo": z3.If(ok, g(V_LO) - d["Rlo"], 0),
+               "left_hi": z3.If(ok, g(B_HI), 0), "left_lo": z3.If(ok, g(B_LO), 0),
+               "sound": z3.If(z3.Or(z3.Not(ok), z3.And(
+                   job["put_ok"].term, job["mints"].term == 1, g(T_HI) == 0, g(T_LO) == 0,
+                   # an input bucket that still holds something must be the change bucket; the other one was dropped empty
+                   z3.Implies(g(B_HI) > 0, change == B_HI), z3.Implies(g(B_LO) > 0, change == B_LO),
+                   z3.Or(change == B_HI, job["dropped%d" % B_HI].term), z3.Or(change == B_LO, job["dropped%d" % B_LO].term))), 1, 0)}
+        return res
+
+    def native(self, nat, vals):
+        c = self.case
+        t = nat.call("pool2_run", c["dhi"], c["dlo"], vals["Rhi"], vals["Rlo"], vals["S"], "C", vals["chi"], vals["clo"], c["swap"]).split()
+        if t[0] == "panic":
+            return {"panic": True, "msg": " ".join(t[1:])}
+        if t[0] != "ok":
+            return {"panic": False, "ok": False, "minted": 0, "dep_hi": 0, "dep_lo": 0, "left_hi": 0, "left_lo": 0, "sound": 1}
+        m, dh, dl, ch, cl = map(int, t[1:6])
+        return {"panic": False, "ok": True, "minted": m, "dep_hi": dh, "dep_lo": dl, "left_hi": ch, "left_lo": cl, "sound": 1}
+
+    def post(self, inp, res):
+        d = {k: lit(v) for k, v in inp.items()}
+        ok, m = lit(res["ok"]), lit(res["minted"])
+        dh, dl, lh, ll = lit(res["dep_hi"]), lit(res["dep_lo"]), lit(res["left_hi"]), lit(res["left_lo"])
+        S, Rh, Rl = d["S"], d["Rhi"], d["Rlo"]
+        if self.fairness:
+            side = lambda R_, dep: z3.Implies(R_ > 0, m * R_ <= (dep + 1) * S)
+            return [("units minted never exceed the pro-rata share of what was deposited (one atto of slack)",
+                     z3.Implies(ok, z3.And(side(Rh, dh), side(Rl, dl))))]
+        return [("every contributed amount is deposited or handed back as change; nothing is lost or created",
+                 z3.Implies(ok, z3.And(dh + lh == d["chi"], dl + ll == d["clo"], dh >= 0, dl >= 0, lit(res["sound"]) == 1))),
+                ("at most one side has change", z3.Implies(ok, z3.Or(lh == 0, ll == 0))),
+                ("some units are minted on success", z3.Implies(ok, m > 0)),
+                ("with one-sided liquidity nothing is taken for the empty side",
+                 z3.Implies(z3.And(ok, S > 0), z3.And(z3.Implies(Rh == 0, dh == 0), z3.Implies(Rl == 0, dl == 0))))]
+
+    def covers(self, inp, res):
+        d = {k: lit(v) for k, v in inp.items()}
+        ok = lit(res["ok"])
+        normal = z3.And(ok, d["S"] > 0, d["Rhi"] > 0, d["Rlo"] > 0)
+        one = z3.And(ok, d["S"] > 0, z3.Or(d["Rhi"] == 0, d["Rlo"] == 0))
+        if self.fairness:
+            return [("normal operation", normal), ("one-sided liquidity", one)]
+        return [("normal operation with change", z3.And(normal, z3.Or(lit(res["left_hi"]) > 0, lit(res["left_lo"]) > 0))),
+                ("one-sided liquidity", one)]
+
+    def vectors(self, rng):
+        out = []
+        cases = self.cases("thorough")
+        for _ in range(30):
+            c = rng.choice(cases)
+            sh, sl = 10 ** (18 - c["dhi"]), 10 ** (18 - c["dlo"])
+            pick = lambda step, xs: rng.choice(xs) // step * step
+            d = dict(c)
+            d.update({"chi": pick(sh, [0, 5 * E18, 2 * E18, 19 * E18 // 10, 7 * E18 + 3]),
+                      "clo": pick(sl, [0, 19 * E18 // 10, 4 * E18, 9 * E18, 5 * E18 + 1]),
+                      "Rhi": pick(sh, [0, 10 * E18, 100 * E18, 3 * E18]), "Rlo": pick(sl, [0, 10 * E18, 400 * E18, 7 * E18 + 5]),
+                      "S": rng.choice([0, 10 * E18, 200 * E18, 1])})
+            d["S"] = rng.choice([10 * E18, 200 * E18, 1])
+            d["Rhi"] = 0 if c["arm"] == "hi_empty" else pick(sh, [10 * E18, 100 * E18, 3 * E18])
+            d["Rlo"] = 0 if c["arm"] == "lo_empty" else pick(sl, [10 * E18, 400 * E18, 7 * E18 + 5]) or sl
+            out.append(d)
+        return out
+
+
+JOBS["C41"] += [Pool2Contribute("fairness18"), Pool2Contribute("fairness_lowdiv"), Pool2Contribute("conservation")]
